@@ -361,7 +361,10 @@ func (d doubleQuotes) String() string {
 
 // Loosely based on Pratt parser explained in this article: https://matklad.github.io/2020/04/13/simple-but-powerful-pratt-parsing.html
 func (p *Parser) term(maxPriority Integer) (Term, error) {
-	var lhs Term
+	var (
+		lhs      Term
+		priority Integer // The priority of lhs.
+	)
 	switch op, err := p.prefix(maxPriority); err {
 	case nil:
 		_, rbp := op.bindingPriorities()
@@ -370,7 +373,7 @@ func (p *Parser) term(maxPriority Integer) (Term, error) {
 			p.backup()
 			return p.term0(maxPriority)
 		}
-		lhs = op.name.Apply(t)
+		lhs, priority = op.name.Apply(t), op.priority
 	case errNoOp:
 		lhs, err = p.term0(maxPriority)
 		if err != nil {
@@ -381,10 +384,11 @@ func (p *Parser) term(maxPriority Integer) (Term, error) {
 	}
 
 	for {
-		op, err := p.infix(maxPriority)
+		op, err := p.infix(maxPriority, priority)
 		if err != nil {
 			break
 		}
+		priority = op.priority
 		switch _, rbp := op.bindingPriorities(); {
 		case rbp > 1200:
 			lhs = op.name.Apply(lhs)
@@ -442,7 +446,7 @@ func (p *Parser) prefix(maxPriority Integer) (operator, error) {
 	return operator{}, errNoOp
 }
 
-func (p *Parser) infix(maxPriority Integer) (operator, error) {
+func (p *Parser) infix(maxPriority, lhsPriority Integer) (operator, error) {
 	a, err := p.op(maxPriority)
 	if err != nil {
 		return operator{}, errNoOp
@@ -450,13 +454,13 @@ func (p *Parser) infix(maxPriority Integer) (operator, error) {
 
 	if op := p.operators[a][operatorClassInfix]; op != (operator{}) {
 		l, _ := op.bindingPriorities()
-		if l <= maxPriority {
+		if op.priority <= maxPriority && lhsPriority <= l {
 			return op, nil
 		}
 	}
 	if op := p.operators[a][operatorClassPostfix]; op != (operator{}) {
 		l, _ := op.bindingPriorities()
-		if l <= maxPriority {
+		if op.priority <= maxPriority && lhsPriority <= l {
 			return op, nil
 		}
 	}
